@@ -52,6 +52,11 @@ func (y CheckWhen) check(s *Selection, m meta.Meta) (bool, error) {
 			if err != nil {
 				return false, err
 			}
+			if meta.IsLeaf(m) && xp.Ident == ".." && xp.Expr == nil && xp.Next != nil {
+				// context node of a when on a leaf is the leaf and the selection is already the
+				// leaf's parent: the first step up has been taken
+				xp = xp.Next
+			}
 			proceed, err := s.XPredicate(xp)
 			return proceed, err
 		}
